@@ -300,7 +300,7 @@ class Stack(MixIn):
         Service the .txPkts deque to send packets through server
         Override in subclass
         """
-        while self.handler.opened and self.txPkts:
+        while self.handler.opened and (self.txbs or self.txPkts):  # .txbs holds unsent rest of last packet
             if not self._serviceOneTxPkt():
                 break  # blocked try again later
 
@@ -308,7 +308,7 @@ class Stack(MixIn):
         '''
         Service .txPkts deque once (one pkt)
         '''
-        if self.handler.opened and self.txPkts:
+        if self.handler.opened and (self.txbs or self.txPkts):  # .txbs holds unsent rest of last packet
             self._serviceOneTxPkt()
 
     def transmit(self, pkt):
@@ -1675,7 +1675,8 @@ class TcpClientStack(ClientStreamStack, IpStack):
         Service the .txPkts deque of packed packets to send packets through server
         Override in subclass
         """
-        while (self.txPkts and self.handler.connected and not self.handler.cutoff):
+        while ((self.txbs or self.txPkts) and  # .txbs holds unsent rest of last packet
+               self.handler.connected and not self.handler.cutoff):
             if not self._serviceOneTxPkt():
                 break  # blocked try again later
 
@@ -1683,7 +1684,8 @@ class TcpClientStack(ClientStreamStack, IpStack):
         '''
         Service .txPkts deque once (one pkt)
         '''
-        if (self.txPkts and self.handler.connected and not self.handler.cutoff):
+        if ((self.txbs or self.txPkts) and  # .txbs holds unsent rest of last packet
+                self.handler.connected and not self.handler.cutoff):
             self._serviceOneTxPkt()
 
     def _serviceOneReceived(self):
